@@ -108,6 +108,7 @@ mod imp {
         let mut out = vec![];
         salsa::verif::trace_mark(&format!("reader_start:{ti}"));
         for r in reqs {
+            salsa::verif::trace_mark(if matches!(r, Req::CloneQueryDrop { .. }) { "request_start:clone" } else { "request_start" });
             let o = match r {
                 Req::Yield => {
                     crate::sched_yield();
@@ -203,6 +204,7 @@ mod imp {
                 if let Some(t) = tokens.get(*ti as usize) {
                     salsa::verif::trace_mark(&format!("cancel:{ti}"));
                     t.cancel();
+                    salsa::verif::trace_mark(&format!("cancelled:{ti}"));
                     log.cancelled.push(*ti as usize);
                 }
             }
